@@ -9,7 +9,7 @@ TYPES = {
     "Code38": ((3, 8), True),
     "Code310": ((3, 10), True),
 }
-RULE = ("seeded increasing offset sequences (gaps 0..1000, incl. 254/255/256/510) x line sequences (deltas across +-127, +-128, +-255, "
+RULE = ("seeded increasing offset sequences (gaps 0..1000, incl. 254/255/256/510) x co_firstlineno (equal to / below / - signed formats - above the first instruction's line) x line sequences (deltas across +-127, +-128, +-255, "
         "+-256, +-1000; decreasing lines only where the format allows) given as {offset: line} mappings to Code2, Code3 (decoded as "
         "3.5 and as 3.7), Code38, Code310; freeze() output is decoded by (a) xdis's line-start routine for that code type and (b) the "
         "matching CPython, which installs the encoded bytes in a code object and reports dis.findlinestarts; both must give back the "
@@ -69,7 +69,17 @@ def gen_case(rng, ctype, signed):
         if l != l2[-1]:
             o2.append(o)
             l2.append(l)
-    return {"ctype": ctype, "offsets": o2, "lines": l2, "form": "dict", "code_len": o2[-1] + 10}
+    # co_firstlineno need not be the line of the first instruction (a `def` line followed by its body; decorators): the
+    # first table entry then carries a line step at offset gap 0.  Below it only where the format has signed steps.
+    fl = l2[0]
+    r = rng.random()
+    if r < 0.45:
+        d = rng.choice([1, 1, 2, 3, 127, 128, 129, 255, 256, 300])
+        if fl - d >= 1:
+            fl = fl - d
+        elif signed and r < 0.1:
+            fl = fl + d
+    return {"ctype": ctype, "offsets": o2, "lines": l2, "form": "dict", "code_len": o2[-1] + 10, "firstlineno": fl}
 
 
 def run(tier, scratch, t0, replay=None):
@@ -104,7 +114,7 @@ def run(tier, scratch, t0, replay=None):
 
     def tjob(v):
         idxs = by_v[v]
-        items = [{"code_len": cases[i]["code_len"], "firstlineno": cases[i]["lines"][0], "table": recs[i]["table"]} for i in idxs]
+        items = [{"code_len": cases[i]["code_len"], "firstlineno": cases[i]["firstlineno"], "table": recs[i]["table"]} for i in idxs]
         tf, err = K.run_truth(v, "linetab", {"items": items}, scratch.root, "lt%d%d" % v, timeout=1200)
         return v, tf, err
 
@@ -123,7 +133,10 @@ def run(tier, scratch, t0, replay=None):
         want_pairs = list(zip(c["offsets"], c["lines"]))
         queries = sorted(set(c["offsets"] + [o + 2 for o in c["offsets"]] + [c["code_len"] - 2]))
         want = step(want_pairs, queries)
-        det = {"offsets": c["offsets"], "lines": c["lines"], "form": c["form"]}
+        det = {"offsets": c["offsets"], "lines": c["lines"], "form": c["form"], "firstlineno": c["firstlineno"]}
+        if c["firstlineno"] != c["lines"][0]:
+            cls += ",first-line-step"
+            res.count("c19_first_instruction_not_on_firstlineno")
         if "error" in r:
             res.mismatches.append({"key": "C19|%s|freeze-raises:%s|%s" % (c["ctype"], r["error"], cls), "detail": dict(det, msg=r.get("msg"))})
             disagreements += 1
@@ -148,7 +161,7 @@ def run(tier, scratch, t0, replay=None):
                                        "detail": dict(det, table=r["table"], cpython=t["linestarts"][:10])})
                 disagreements += 1
         if len(c["offsets"]) >= 2:
-            res.distinct.add(K.sha([c["ctype"], c["offsets"], c["lines"]]))
+            res.distinct.add(K.sha([c["ctype"], c["offsets"], c["lines"], c["firstlineno"]]))
         if len(res.samples) < 5 and idx % 97 == 0:
             res.sample({"ctype": c["ctype"], "offsets": c["offsets"], "lines": c["lines"], "form": c["form"], "encoded": r.get("table")})
     return K.finish(res, tier, "translation_validation", RULE, t0,
